@@ -114,6 +114,23 @@ pub fn run(cx: &mut Ctx) {
             }
         } }
     });
+    cx.check("approximate_zero_operands", |cb| {
+        // stored value 0 but flagged approximate: (big + small) - big, whose true value is `small`
+        let mut ts: Vec<(String, Scalar4, M4)> = vec![];
+        for (nb, big, mb) in pool.iter().filter(|p| ["2^100", "2^100 w^2", "5*2^70"].contains(&p.0.as_str())) {
+            for (ns, small, ms) in pool.iter().filter(|p| ["1", "w", "i", "3", "5w", "(1+2w-3w^2+4w^3)/8"].contains(&p.0.as_str())) {
+                let t = (big + small) - big;
+                ts.push((format!("(({}) + ({})) - ({})", nb, ns, nb), t, m_sub(&m_add(mb, ms), mb)));
+            }
+        }
+        for (nt, t, mt) in &ts { for (na, a, ma) in &pool {
+            for (op, s, m) in [("*", guard(|| a * t), m_mul(ma, mt)), ("*'", guard(|| t * a), m_mul(mt, ma)), ("+", guard(|| a + t), m_add(ma, mt)), ("-'", guard(|| t - a), m_sub(mt, ma))] {
+                cb(&|| format!("({}) {} [{}]", na, op, nt), s.and_then(|s| honest(&s, &m)));
+            }
+            // and once more on top of the product, so that a dropped flag shows up as a wrong exact value
+            if let Ok(p) = guard(|| a * t) { cb(&|| format!("(({}) * [{}]) + 1", na, nt), honest(&(p + Scalar4::new([1, 0, 0, 0], 0)), &m_add(&m_mul(ma, mt), &[q(1), Q::zero(), Q::zero(), Q::zero()]))); }
+        } }
+    });
     cx.check("zero_one_and_phase_recognition", |cb| {
         for (name, s, m) in pool.iter().chain(l1.iter()) {
             let c = match read(s) { Ok(c) => c, Err(e) => { cb(&|| name.clone(), Err(e)); continue; } };
